@@ -89,10 +89,12 @@ func newHostTable() HostTable {
 func (h *Session) printHostTable() {
 	count := 0
 	for _, v := range h.MACTable.Table {
+		v.Row.RLock()
 		for _, host := range v.HostList {
 			Logger.Msg("host").Struct(host).Write()
 			count++
 		}
+		v.Row.RUnlock()
 	}
 	if count != len(h.HostTable.Table) { // validate our logic - DELETE and replace with test in future
 		panic(fmt.Sprintf("host table differ in lenght hosts=%d machosts=%d  ", len(h.HostTable.Table), count))
@@ -113,8 +115,10 @@ func (h *Session) findOrCreateHostWithLock(addr Addr) (host *Host, found bool) {
 	//optimise the common path
 	h.mutex.RLock()
 	if host, found = h.HostTable.Table[addr.IP]; found && bytes.Equal(host.MACEntry.MAC, addr.MAC) {
+		host.MACEntry.Row.Lock() // host and mac fields are protected by the row lock (engine lock first, then row)
 		host.LastSeen = now
 		host.MACEntry.LastSeen = now
+		host.MACEntry.Row.Unlock()
 		h.mutex.RUnlock()
 		return host, true
 	}
@@ -141,16 +145,17 @@ func (h *Session) findOrCreateHostWithLock(addr Addr) (host *Host, found bool) {
 	host = &Host{Addr: Addr{IP: addr.IP, MAC: macEntry.MAC}, MACEntry: macEntry, Online: false} // set to false to trigger Online transition
 	host.dirty = true
 	host.Manufacturer = FindManufacturer(macEntry.MAC)
+	host.HuntStage = StageNormal
+	host.LastSeen = now
+	macEntry.Row.Lock() // the mac entry may be shared with other hosts that are read under the row lock
 	if host.Manufacturer != "" && host.Manufacturer != host.MACEntry.Manufacturer {
 		host.MACEntry.Manufacturer = host.Manufacturer
 	}
-	host.HuntStage = StageNormal
-	host.LastSeen = now
 	host.MACEntry.LastSeen = now
-	h.HostTable.Table[addr.IP] = host
-
 	// link host to macEntry
 	macEntry.HostList = append(macEntry.HostList, host)
+	macEntry.Row.Unlock()
+	h.HostTable.Table[addr.IP] = host
 	return host, false
 }
 
@@ -159,9 +164,12 @@ func (h *Session) deleteHost(ip netip.Addr) {
 		if Logger.IsDebug() {
 			Logger.Msg("delete host").IP("ip", ip).Struct(host).Write()
 		}
+		host.MACEntry.Row.Lock() // the host list is read under the row lock
 		host.MACEntry.unlink(host)
+		empty := len(host.MACEntry.HostList) == 0
+		host.MACEntry.Row.Unlock()
 		delete(h.HostTable.Table, ip)
-		if len(host.MACEntry.HostList) == 0 { // delete if last host
+		if empty { // delete if last host
 			h.MACTable.delete(host.MACEntry.MAC)
 		}
 		return
